@@ -201,6 +201,24 @@ fn c14(exe: &str) {
         if peak > budget { fail(format!("[c14] decoding {} input bytes ({}) had {} bytes of heap live at once (largest single request {}), budget {}", b.len(), what, peak, BIGGEST.load(Ordering::SeqCst), budget)); }
     }
 }
+// counts that lie: containers announcing up to 2^32-1 elements with none (or one) present, nested; the decoder must come
+// back (Ok or Err) promptly - a loop that runs the announced count instead of stopping at the end of the input takes 2^32k steps
+fn lying_counts(tag: &str) {
+    let mut cases: Vec<(String, Vec<u8>)> = vec![];
+    for k in 1..=4usize { let mut b = vec![]; for _ in 0..k { b.extend_from_slice(&[0x0A, 0xFF, 0xFF, 0xFF, 0xFF]); } cases.push((format!("{} nested strict arrays announcing 2^32-1 elements, nothing else", k), b)); }
+    for k in 1..=3usize { let mut b = vec![]; for _ in 0..k { b.extend_from_slice(&[0x0A, 0x7F, 0xFF, 0xFF, 0xFF]); } b.push(5); cases.push((format!("{} nested strict arrays announcing 2^31-1 elements, one null present", k), b)); }
+    for k in 1..=3usize { let mut b = vec![]; for _ in 0..k { b.extend_from_slice(&[0x0A, 0xFF, 0xFF, 0xFF, 0xFF]); } b.extend_from_slice(&[0, 0, 9]); cases.push((format!("{} nested strict arrays announcing 2^32-1 elements followed by an object-end marker", k), b)); }
+    for k in 1..=3usize { let mut b = vec![]; for _ in 0..k { b.extend_from_slice(&[0x08, 0xFF, 0xFF, 0xFF, 0xFF, 0, 1, b'k']); } cases.push((format!("{} nested ECMA arrays announcing 2^32-1 entries, truncated after the first name", k), b)); }
+    for (what, bytes) in cases {
+        let (tx, rx) = std::sync::mpsc::channel();
+        let b2 = bytes.clone();
+        std::thread::spawn(move || { let mut c = Cursor::new(b2); let r = std::panic::catch_unwind(std::panic::AssertUnwindSafe(|| deserialize(&mut c).map(|v| v.len()))); let _ = tx.send(format!("{:?}", r.map_err(|_| "PANIC"))); });
+        match rx.recv_timeout(std::time::Duration::from_secs(20)) {
+            Err(_) => fail(format!("[{}] deserialize did not return within 20 s on {} bytes: {} ({:02x?})", tag, bytes.len(), what, bytes)),
+            Ok(r) => if r.contains("PANIC") { fail(format!("[{}] deserialize panicked on {} ({:02x?})", tag, what, bytes)) },
+        }
+    }
+}
 fn main() {
     let a: Vec<String> = std::env::args().collect();
     if a.len() >= 4 && a[1] == "childrun" {
@@ -214,6 +232,6 @@ fn main() {
         h.join().unwrap(); return;
     }
     std::panic::set_hook(Box::new(|_| {}));
-    match a.get(1).map(|s| s.as_str()).unwrap_or("c04") { "c04" => c04(), "c12" => c12(), "c14" => c14(&a[0]), _ => {} }
+    match a.get(1).map(|s| s.as_str()).unwrap_or("c04") { "c04" => c04(), "c12" => { c12(); lying_counts("c12") }, "c14" => { c14(&a[0]); lying_counts("c14") }, _ => {} }
     println!("NONE");
 }
